@@ -20,6 +20,34 @@ PROPS = {
             "the oracle is the set model: a stored version must be one of the highest-timestamp versions seen; the tie-break itself is only required to be the same everywhere (identical content after quiescence)",
         ],
     },
+    "C03": {
+        "level": "fault_enumeration",
+        "tests": [
+            T("TestC03Enum", "fleet", 1, 1, enum=True, qshards=4, shards=8, procs=4),
+            T("TestC03Loop", "fleet", 600, 64000, shards=16, qshards=4, procs=4),
+        ],
+        "known_tests": [T("TestKnownC03", "fleet", 1, 1)],
+        "assumptions": [
+            "application transactions commit only at the yield points of the sync loop (14 points, incl. between the end of each LS transaction and the following env.Info()); LMDB serialises writers, so a commit 'during' an LS write transaction is a commit right after it",
+            "native mode: remote timestamps never equal local ones (ties are C01/C02); an application overwrite is stamped later than what it overwrites",
+            "shadow mode: the oracle is the reference mirror model (C11) driven by the commits and by the LS transactions that completed; remote stamps lie in the past of the shared clock; live empty values excluded (known finding)",
+            "commits matching the listed known finding (transaction-id reuse after an LS write transaction that turned out empty) are deferred to the next yield point and counted",
+        ],
+    },
+    "C09": {
+        "level": "fault_enumeration",
+        "tests": [
+            T("TestC03Enum", "fleet", 1, 1, enum=True, qshards=4, shards=8, procs=4),
+            T("TestC03Loop", "fleet", 600, 64000, shards=16, qshards=4, procs=4),
+        ],
+        "known_tests": [T("TestKnownC03", "fleet", 1, 1)],
+        "assumptions": [
+            "same scheduler runs as C03 (one run feeds both oracles)",
+            "idle = two consecutive loop iterations without application commit, delivery or Store; storage_force_snapshot_interval = 0",
+            "Store fault sequences are shorter than the retry budget (storage_retry_count = 4)",
+            "a key that currently holds a merged remote winner is not required to be re-published (merged remote data is not a local change, by design)",
+        ],
+    },
     "C04": {
         "level": "exploration",
         "tests": [
